@@ -24,8 +24,9 @@ ASSUMPTIONS = [
     'A-GZIP: gzip is transparent (the decompressed concatenation of members is compared)',
     'A-LOG10: the float64 log10 rounding that ints_to_strings relies on is modelled by calibrated thresholds '
     '(10^d - m <= 2, 21, 407, 4031 for d = 15..18), validated on every run by cases on both sides of each threshold',
-    'lazy VCF sources (read from a canonical file) are modelled by the eager serialiser on the typed rows; the lazy '
-    'extraction itself is property C04']
+    'lazy VCF sources: an unmodified lazily read table (variant lazy, Model fmt VcfL) is passed through as the canonical text '
+    'it was read from (model = spec for that call; the lazy extraction itself is property C04); with a replaced POS '
+    'column (variant lazypos) the model is the eager serialiser (all other VCF columns are text)']
 PARTIAL = ['C03_int_text_partial: |n| < 10^15 - 2 (float log10 width; -2^63 wraps) — full for the repaired printer (C03_int_text_fixed)',
            'C03_fasta_partial: every sequence non-empty — full for the repaired from_data (C03_fasta_fixed)',
            'C03_from_data_canonical_partial: tables in table_ok (rectangular, int cells small, FASTA sequences non-empty, not VCFEntry with Union INFO)',
@@ -498,7 +499,7 @@ def _fmt_term(case):
     if fmt == 'fastq':
         return 'Fastq'
     if fmt == 'vcf':
-        return 'VcfU' if case['variant'] == 'union' else 'Vcf'
+        return {'union': 'VcfU', 'lazy': 'VcfL'}.get(case['variant'], 'Vcf')
     return 'Delim'
 
 
@@ -648,7 +649,7 @@ def _cell_text(k, v, pinned):
 def _ref_chunk(case, rows, T):
     """(err, text) of one from_data call"""
     fmt, kinds = case['fmt'], KINDS[case['fmt']]
-    pinned = F_INT in T
+    pinned = F_INT in T and not (fmt == 'vcf' and case['variant'] == 'lazy')      # unmodified lazy records pass through
     if fmt == 'fasta':
         w = case['width']
         if F_FASTA in T and any(len(r[1]) == 0 and len(r[0]) != w - 1 for r in rows):
@@ -714,11 +715,12 @@ def _ref_run(case, T):
     if read_ok:
         for r in rows:
             e = []
+            pinned = F_INT in T and not (case['fmt'] == 'vcf' and case['variant'] == 'lazy')
             for k, v in zip(kinds, r):
                 if k == 'I':
-                    e.append(int(_int_text(v, F_INT in T)))
+                    e.append(int(_int_text(v, pinned)))
                 elif k == 'L':
-                    e.append([int(_int_text(x, F_INT in T)) for x in v])
+                    e.append([int(_int_text(x, pinned)) for x in v])
                 else:
                     e.append(v)
             exp_rows.append(e)
